@@ -1,7 +1,7 @@
 (* C11 — valid queries parse to the structure they denote; invalid ones are rejected; parsing
    never panics.  Statements only. *)
 From Coq Require Import Permutation.
-From DT Require Import Lib.Bytes Lib.Split Gen.Consts Model.C11_Query Proofs.C11_Query Proofs.C11_Surface Proofs.C11_Order Proofs.C11_Denote Proofs.C11_Quote.
+From DT Require Import Lib.Bytes Lib.Split Gen.Consts Model.C11_Query Proofs.C11_Query Proofs.C11_Surface Proofs.C11_Order Proofs.C11_Denote Proofs.C11_Quote Proofs.C11_Reject.
 
 (* Parsing never panics: for every query text and every behaviour of strconv's ParseFloat / Atoi,
    NewQuery returns (nil,nil) for the empty string, an error, or a query - every slice and index
@@ -124,10 +124,53 @@ Theorem C11_denote_set_funcs : forall is_float atoi es, es <> [] -> Forall (fite
 Proof. exact set_denotes_funcs. Qed.
 Print Assumptions C11_denote_set_funcs.
 
-(* What is still NOT proved of the round trip: the rejection of the malformed families (it is decided by the
-   correspondence check, which renders random abstract queries in random clause orders, keyword cases, separator styles
-   and quotings, mutates them, and compares every parsed field of mapr.NewQuery with this model and an independent
-   denotation), and back-quoted words outside select lists. *)
+(* Malformed queries are rejected.  (1) One rejected clause rejects the whole query, wherever it stands among well-formed
+   clauses.  (2) The malformed families, clause by clause: two tables; a limit / interval that is not a number; a where
+   condition with an unknown operator, with fewer than three parts, or with a quoted operand under a numeric operator; a set
+   assignment without '=', without a $variable on the left, or incomplete; an outfile with a wrong mode word or three words;
+   an unknown aggregation.  (No select list, and an order-by column that is not selected: C11_finish above.) *)
+Theorem C11_reject : forall is_float atoi (cs : list cl) (q : query) (fuel : nat) (c : cl),
+  Forall wf_clause cs -> In c cs -> eff is_float atoi (ckw c) (snd c) = RErr -> length (toks cs) < fuel ->
+  parse_tokens is_float atoi fuel q (toks cs) = RErr.
+Proof. exact parse_rejects. Qed.
+Print Assumptions C11_reject.
+Theorem C11_reject_two_tables : forall is_float atoi t1 t2 rest, Forall simple (t1 :: t2 :: rest) -> eff is_float atoi (B"from") (t1 :: t2 :: rest) = RErr.
+Proof. exact from_two_rejected. Qed.
+Theorem C11_reject_limit : forall is_float atoi t rest, Forall simple (t :: rest) -> atoi (t_str t) = None -> eff is_float atoi (B"limit") (t :: rest) = RErr.
+Proof. exact limit_nonnumber_rejected. Qed.
+Theorem C11_reject_interval : forall is_float atoi t rest, Forall simple (t :: rest) -> atoi (t_str t) = None -> eff is_float atoi (B"interval") (t :: rest) = RErr.
+Proof. exact interval_nonnumber_rejected. Qed.
+Theorem C11_reject_where_operator : forall is_float atoi l o r rest, Forall simple (l :: o :: r :: rest) ->
+  whereop_of (lower (t_str o)) = None -> eff is_float atoi (B"where") (l :: o :: r :: rest) = RErr.
+Proof. exact where_unknown_op_rejected. Qed.
+Theorem C11_reject_where_incomplete : forall is_float atoi l rest, Forall simple (l :: rest) -> length rest < 2 -> eff is_float atoi (B"where") (l :: rest) = RErr.
+Proof. exact where_incomplete_rejected. Qed.
+Theorem C11_reject_where_quoted_number : forall is_float atoi l o r rest op, Forall simple (l :: o :: r :: rest) ->
+  whereop_of (lower (t_str o)) = Some op -> is_float_op op = true -> t_bare l = false \/ t_bare r = false ->
+  eff is_float atoi (B"where") (l :: o :: r :: rest) = RErr.
+Proof. exact where_quoted_number_rejected. Qed.
+Theorem C11_reject_set_no_equals : forall is_float atoi l o r rest, Forall simple (l :: o :: r :: rest) ->
+  bytes_eqb (t_str o) (B"=") = false -> eff is_float atoi (B"set") (l :: o :: r :: rest) = RErr.
+Proof. exact set_no_equals_rejected. Qed.
+Theorem C11_reject_set_no_dollar : forall is_float atoi l r rest, Forall simple (l :: bare_tok (B"=") :: r :: rest) ->
+  bprefix [dollar] (t_str l) = false -> eff is_float atoi (B"set") (l :: bare_tok (B"=") :: r :: rest) = RErr.
+Proof. exact set_no_dollar_rejected. Qed.
+Theorem C11_reject_set_incomplete : forall is_float atoi l rest, Forall simple (l :: rest) -> length rest < 2 -> eff is_float atoi (B"set") (l :: rest) = RErr.
+Proof. exact set_incomplete_rejected. Qed.
+Theorem C11_reject_outfile_mode : forall is_float atoi a t, Forall simple [a; t] -> bytes_eqb (t_str a) (B"append") = false ->
+  eff is_float atoi (B"outfile") [a; t] = RErr.
+Proof. exact outfile_bad_mode_rejected. Qed.
+Theorem C11_reject_outfile_three : forall is_float atoi a b c rest, Forall simple (a :: b :: c :: rest) -> eff is_float atoi (B"outfile") (a :: b :: c :: rest) = RErr.
+Proof. exact outfile_three_rejected. Qed.
+Theorem C11_reject_unknown_aggregation : forall is_float atoi name fld rest, ~ In lparen name -> ~ In lparen fld /\ ~ In rparen fld ->
+  agg_of name = None -> Forall simple (bare_tok (name ++ lparen :: fld ++ [rparen]) :: rest) ->
+  eff is_float atoi (B"select") (bare_tok (name ++ lparen :: fld ++ [rparen]) :: rest) = RErr.
+Proof. exact select_unknown_agg_rejected. Qed.
+
+(* What is still NOT proved: malformed texts outside these families (unbalanced back-quotes, stray parentheses, keywords as
+   operands ...) and back-quoted words outside select lists are decided by the correspondence check, which renders random
+   abstract queries in random clause orders, keyword cases, separator styles and quotings, mutates them, and compares every
+   parsed field of mapr.NewQuery with this model and an independent denotation. *)
 Example C11_example :
   let text := B"SeLeCt count(x),`avg(y)`  from stats WHERE a >= 2.5 and ""s t"" eq b group by h rorder by count(x) limit 10" in
   match new_query (fun s => bytes_eqb s (B"2.5")) (fun s => if bytes_eqb s (B"10") then Some 10%Z else None) text with
@@ -166,6 +209,15 @@ Example C11_quote_example :
 Proof.
   cbv zeta. split; [|vm_compute; repeat split; reflexivity].
   repeat constructor; try (vm_compute; reflexivity); cbn; try discriminate; intuition discriminate.
+Qed.
+
+Example C11_reject_example :
+  let cs := [(w "select", [w "count(x)"]); (w "from", [w "A"; w "B"]); (w "limit", [w "10"])] in
+  Forall wf_clause cs /\ parse_tokens (fun _ => false) (fun _ => Some 10%Z) 20 q0 (toks cs) = RErr
+  /\ new_query (fun _ => false) (fun _ => None) (B"select count(x) from S where a nosuchop 1") = Some RErr
+  /\ new_query (fun _ => false) (fun _ => None) (B"select nosuch(x) from S") = Some RErr.
+Proof.
+  cbv zeta. split; [repeat constructor; apply wf_clause_b_ok; vm_compute; reflexivity|]. vm_compute. repeat split; reflexivity.
 Qed.
 
 Example C11_denote_example :
